@@ -25,7 +25,7 @@ def rnd_inputs(rnd, op):
                                                              rnd.randrange(0, 100000)])}
     elif op == "set_device_name":
         i["name"] = rnd.choice(["ab", "a", "", "x" * 32, "x" * 33, "my boiler", "דוד", "שלום עולם", "é" * 16, "é" * 17, "😀😀", "😀" * 8,
-                                "😀" * 9, "a" * rnd.randrange(0, 40)])
+                                "😀" * 9, "a" * rnd.randrange(0, 40)] + UNNORMALISED)
     elif op == "delete_schedule":
         i["schedule_id"] = str(rnd.randrange(10))
     elif op == "create_schedule":
@@ -42,6 +42,10 @@ def rnd_inputs(rnd, op):
     return i
 
 
+# names that are not in a Unicode normal form (decomposed accents, Hangul jamo, compatibility signs, Hebrew presentation forms):
+# the device stores the bytes it is sent, so the frame carries exactly the caller's code points
+UNNORMALISED = ["cafe\u0301", "e\u0301" * 10, "\u1112\u1161\u11ab", "\u212b\u2126", "\ufb2a\ufb2b boiler", "\u0915\u093c" * 5, "A\u030a", "\u1e9b\u0323",
+                "\ufb01t", "\u00e9" + "e\u0301"]
 OPS = [("control_device", 1), ("set_auto_shutdown", 1), ("set_device_name", 1), ("get_schedules", 1), ("delete_schedule", 1),
        ("create_schedule", 1), ("get_state", 1), ("stop", 2), ("set_position", 2), ("get_shutter_state", 2), ("get_breeze_state", 2)]
 
@@ -97,7 +101,7 @@ def run_case(c):
             if not r["ok"]:
                 r.update(evaluations=n, case={"prop": "C02", "kind": "enc_minutes_check", "inputs": {"minutes": m}})
                 return r
-        for name in ["", "a", "ab", "x" * 32, "x" * 33, "דוד שמש", "שלום עולם", "é" * 16, "é" * 17, "😀" * 8, "😀" * 9, "😀😀", "boiler \x00"]:
+        for name in ["", "a", "ab", "x" * 32, "x" * 33, "דוד שמש", "שלום עולם", "é" * 16, "é" * 17, "😀" * 8, "😀" * 9, "😀😀", "boiler \x00"] + UNNORMALISED:
             r = compare(lambda: dtools.string_to_hexadecimale_device_name(name), lambda: spec.name_spec(name))
             n += 1
             if not r["ok"]:
